@@ -77,6 +77,7 @@ def alphabet():
         ("dict+kw", "dict+kw", {"link_en": 0x15, "p2p_sql": 9}, 1020),
         ("mc", "mc", {"hw_ver": 2, "num_buf": 3}, 1028),
         ("bundled", "kwargs", {"hw_ver": 4}, "bundled"),
+        ("mc_wh", "mc_wh", {"hw_ver": 5, "led0": 1}, 1028),
         # overrides that EQUAL the struct file's default, followed by ones
         # that do not (dict order is the order given)
         # (boot_delay is a parameter of boot() itself, not an sv field name
@@ -155,10 +156,18 @@ def do_call(entry, host, cap, net, mods):
             given = dict(items[:1])
             res = bootmod.boot(host, scamp_binary=img, sv_overrides=given,
                                **dict(items[1:]))
-        elif how == "mc":
+        elif how in ("mc", "mc_wh"):
             mc = mcm.MachineController(host)
-            mc.boot(only_if_needed=False, check_booted=True,
-                    scamp_binary=img, **opts)
+            if how == "mc":
+                mc.boot(only_if_needed=False, check_booted=True,
+                        scamp_binary=img, **opts)
+            else:
+                # the deprecated (ignored) width and height arguments
+                import warnings
+                with warnings.catch_warnings():
+                    warnings.simplefilter("ignore")
+                    mc.boot(8, 8, only_if_needed=False, check_booted=True,
+                            scamp_binary=img, **opts)
             res = mc.structs
     except Exception as e:
         exc = e
